@@ -1,5 +1,6 @@
 """C04 - batches are flushed only when nothing else can run (maximal batching)."""
 import ast
+import os
 
 from ..cfg import cfg_of, N, X
 from ..roles import Roles
@@ -132,6 +133,38 @@ def run(R):
             "the drain itself can reach BatchBase.flush(): a batch is flushed while other tasks can still run",
             fmt_chain(hit) if hit else None)
     R.units["drain_call_tree_functions"] = len(seen)
+    # the cut at value()/error()/unwrap() is justified site by site: inside the drain's call tree a future is only read when it is
+    # known to be computed (reading an uncomputed batch item flushes its batch on the spot)
+    cutsites = []
+    fns = dict((f.qualname, f) for f in R.repo.all_functions())
+    for qn in seen:
+        fi = fns.get(qn)
+        if fi is None:
+            continue
+        for call, tg, kind in R.res.callees(fi):
+            nm = q.call_name(call) or ""
+            recv, meth = q.attr_call(call)
+            is_unwrap = nm in ("unwrap", "async_task.unwrap")
+            reads = meth in ("value", "error") and not call.args and any(t.qualname in stop_names for t in tg)
+            if is_unwrap or reads:
+                cutsites.append((fi, call, is_unwrap))
+    driver_ = ro.step_method_task()
+    for fi, call, is_unwrap in cutsites:
+        if fi.name == "unwrap" and fi.cls is None:
+            continue                            # unwrap's own recursion: decided at its entry points
+        if is_unwrap:
+            okc = fi is driver_ and [q.src(a) for a in call.args] == ["self._last_value"]
+            why = "the step driver unwraps the value the task yielded, after is_blocked() found every future in it computed"
+        else:
+            recv = q.src(q.attr_call(call)[0])
+            okc = fi.name == "_computed" and recv == "self"
+            if not okc:
+                from .c18 import guarded_by_computed
+                okc = guarded_by_computed(fi, call)
+            why = "the future is read where it is known to be computed"
+        R.check(okc, "C04.WHO-FLUSH", "%s:reads:%s" % (fi.qualname, q.src(call)[:40]), R.site(fi, call), why,
+                "%s reads a future (`%s`) inside the scheduler's loop without it being known to be computed: for a pending batch item this "
+                "flushes its batch immediately, while other tasks have not issued their requests yet" % (fi.qualname, q.src(call)[:50]))
 
     # DRAIN idiom
     sf = ro.stack_field()
